@@ -28,6 +28,7 @@ def run(ctx):
         else:
             syn, synth_bad = filecamp.synth_inputs(ctx, wd, seeds, maxcounts=(3, 9))
             inputs += syn
+            inputs += filecamp.constructed_inputs(ctx, wd)
         lines, meta = [], []
         for k, (label, f) in enumerate(inputs):
             b = os.path.join(wd, f"r{k}")
@@ -73,7 +74,7 @@ def run(ctx):
             if os.path.exists(f):
                 import shutil
                 shutil.copy(f, keep)
-            synth = label.split("/") if "/" in label else None
+            synth = label.split("/") if label.count("/") == 3 else None
             res.violation(f"oracle-{j}", dict(what=why, input=label, path=keep, mode=mode,
                                               synth=[synth[0], synth[1], int(synth[2]), int(synth[3])] if synth else None))
         res.coverage.update(
